@@ -54,7 +54,7 @@ def gen_case(run, i):
                 halvings=sorted(rng.sample([0, 1, 2, 3, 4], 3)), threads=rng.choice([1, 2, 4]),
                 upsampling=rng.choice(['cubic_spline', 'bilinear', 'nearest']), dup_descr=dup,
                 # how invalid pixels are encoded in the files (stratified: every combination within 36 cases)
-                src_nodata=['nan', -9999.0, 'mask'][(i // 4) % 3], ref_nodata=[-9999.0, 'nan', 'mask'][(i // 12 + i // 4) % 3],
+                src_nodata=['nan', -9999.0, 'mask', 'mask+tag'][(i // 4) % 4], ref_nodata=[-9999.0, 'nan', 'mask+tag', 'mask'][(i // 16 + i // 4) % 4],
                 descr=rng.choice(['none', 'ref', 'src']))
 
 
